@@ -827,11 +827,23 @@ Qed.
    fill_symbol: whenever the fuel covers the INLINE ranges of the function found and the model does not run out of
    its own fuel.  The compiled `instr - mbase` (a u64 subtraction the model writes as plain `-`) cannot trap; neither can
    the `- 1` of the two memory_range functions, nor the `start <= end` assertion of Range::new (for non-negative fields).
-   First conjunct: insert_win_stack_info (the overlap repair of STACK WIN records, with its `last_mut()` borrow, the `as u32`
+   First conjunct: minidump-unwind's fill_source_line_info with Symbolizer::fill_symbol inside (module lookup, the module
+   attached before and whether or not symbols are found, the cached symbol file's fill_symbol at the module's base, the
+   reversal), run on a fresh StackFrame = [frame_of], the function of c11_module_lookup_compose / c11_symbolizer_cached_frame.
+   Second conjunct: insert_win_stack_info (the overlap repair of STACK WIN records, with its `last_mut()` borrow, the `as u32`
    truncation and the `unwrap`) = the model's win_insert on the reversed vector: the guarded u64 subtraction cannot trap.
-   Second conjunct: the Line::Function arm of SymbolParser::finish_item (parser side), compiled with its closures: pushing
+   Third conjunct: the Line::Function arm of SymbolParser::finish_item (parser side), compiled with its closures: pushing
    onto self.functions what [finish_func] returns; after the `size > 0` filter the closure's `l.size as u64 - 1` cannot trap. *)
 Theorem c11_compiled_source_tie :
+  (forall p fuel tbl mods instr, instr < two64 ->
+     (forall idx b sz st, rm_get tbl instr = Some idx -> nth_error mods (Z.to_nat idx) = Some (b, sz, Some st) ->
+        0 <= b /\ SrcTie.fuel_covers st fuel /\ fill_symbol p st b instr <> OutOfFuel) ->
+     C11Src.src_fill_source_line_info p fuel (Prims.mk_sframe instr None empty_out) (tbl, mods) =
+     do r <- frame_of p tbl mods instr;
+     Ret (match r with
+          | None => Prims.mk_sframe instr None empty_out
+          | Some (idx, o) => Prims.mk_sframe instr (Some idx) o
+          end)) /\
   (forall p v w, u64 (w_addr w) -> 0 <= w_size w -> Forall (fun e : range * win_rec => 0 <= w_addr (snd e)) v ->
      C11Src.src_insert_win_stack_info p v w = do acc <- win_insert (rev v) w; Ret (rev acc)) /\
   (forall p acc cur lines inls, u64 (fn_addr cur) -> u32 (fn_size cur) -> Forall wf_line lines ->
@@ -948,6 +960,26 @@ Example c11_nonvacuous_session :
     frame_of Debug tbl (map Session.to_module mods) 4117 =
       Ret (Some (0, mk_out (Some (5, 4112, 12)) (Some (7, 70, 4112)) [(22, Some 7, Some 10); (21, Some 7, Some 71)])) /\
     frame_of Debug tbl (map Session.to_module mods) 12290 = Ret (Some (2, empty_out)).
+Proof.
+  eexists. eexists. split; [vm_compute; reflexivity|]. cbv zeta. split; [vm_compute; reflexivity|].
+  repeat split; vm_compute; reflexivity.
+Qed.
+
+(* the compiled fill_source_line_info on the modules of c11_nonvacuous_session: a frame in the module with symbols (inlines
+   reversed, module 0 attached), one in the module whose symbol file is corrupt (module 2 attached, nothing else), one in
+   no module (frame untouched) *)
+Example c11_nonvacuous_compiled_frames :
+  exists st tbl,
+    build_symtab nv_file2 = Ret st /\
+    let mods : list module := [(4096, 200, Some st); (8192, 100, None); (12288, 100, None)] in
+    mod_table mods = Ret tbl /\
+    C11Src.src_fill_source_line_info Debug 3 (Prims.mk_sframe 4117 None empty_out) (tbl, mods) =
+      Ret (Prims.mk_sframe 4117 (Some 0)
+             (mk_out (Some (5, 4112, 12)) (Some (7, 70, 4112)) [(22, Some 7, Some 10); (21, Some 7, Some 71)])) /\
+    C11Src.src_fill_source_line_info Debug 3 (Prims.mk_sframe 12290 None empty_out) (tbl, mods) =
+      Ret (Prims.mk_sframe 12290 (Some 2) empty_out) /\
+    C11Src.src_fill_source_line_info Debug 3 (Prims.mk_sframe 5000 None empty_out) (tbl, mods) =
+      Ret (Prims.mk_sframe 5000 None empty_out).
 Proof.
   eexists. eexists. split; [vm_compute; reflexivity|]. cbv zeta. split; [vm_compute; reflexivity|].
   repeat split; vm_compute; reflexivity.
